@@ -105,6 +105,7 @@ def generate(seed: int, config: str, tier: str) -> Dict[str, Any]:
         opts["p_ext"] = max(opts["p_ext"], 0.15)
         opts["max_filter_depth"] = max(opts["max_filter_depth"], 2)
         opts["p_filter"] = max(opts["p_filter"], 0.3)
+    opts["p_flat"] = 0.2
     if rng.random() < 0.15:
         opts["p_trip"] = 0.2  # filters that die with JSONPathTypeError at evaluation time (jpsim/tripwire.py)
     queries: List[str] = []
